@@ -34,7 +34,7 @@ type stepFamily struct {
 	entry string
 	warm  int
 	sizes []int
-	known string                     // id of the known finding this family is a signature of ("" = none)
+	known string                    // id of the known finding this family is a signature of ("" = none)
 	make  func(n int) (int, func()) // returns the input length and the call
 }
 
@@ -129,7 +129,9 @@ func stepFamilies() map[string]*stepFamily {
 			}
 			return sb.String()
 		})
-		dslFam("same-relation-many-times", func(n int) string { return famHdr + "type t\n  relations\n" + strings.Repeat("    define r: [user]\n", n/21) })
+		dslFam("same-relation-many-times", func(n int) string {
+			return famHdr + "type t\n  relations\n" + strings.Repeat("    define r: [user]\n", n/21)
+		})
 		dslFam("many-restrictions", func(n int) string { return famRel + "[" + strings.Repeat("user, ", n/6) + "user]" })
 		dslFam("many-restrictions-multiline", func(n int) string { return famRel + "[" + strings.Repeat("user,\n", n/6) + "user]" })
 		dslFam("many-parameters", func(n int) string {
@@ -388,7 +390,9 @@ func stepFamilies() map[string]*stepFamily {
 			}})
 		}
 		jsonFam("nested-arrays-unknown-field", func(n int) string { return "{\"x\":" + strings.Repeat("[", n/2) + strings.Repeat("]", n/2) + "}" })
-		jsonFam("nested-objects-unknown-field", func(n int) string { return "{\"x\":" + strings.Repeat("{\"a\":", n/6) + "1" + strings.Repeat("}", n/6) + "}" })
+		jsonFam("nested-objects-unknown-field", func(n int) string {
+			return "{\"x\":" + strings.Repeat("{\"a\":", n/6) + "1" + strings.Repeat("}", n/6) + "}"
+		})
 		jsonFam("long-string", func(n int) string { return "{\"schema_version\":\"" + strings.Repeat("a", n) + "\"}" })
 		jsonFam("escapes", func(n int) string { return "{\"schema_version\":\"" + strings.Repeat("\\u0041", n/6) + "\"}" })
 		jsonFam("unterminated", func(n int) string { return "{\"type_definitions\":[" + strings.Repeat("{\"type\":\"a\"},", n/13) })
